@@ -1,6 +1,8 @@
 """C17 — Event notifications reach exactly the current subscribers, correctly addressed."""
 from __future__ import annotations
 
+import asyncio
+
 import ipaddress
 
 import someip.header as H
@@ -308,6 +310,54 @@ def run(ctx: core.Ctx) -> core.Report:
             rep.nontrivial.add((interval, len(ops), nsent, hash(tuple(ops)) & 0xFFFFF))
         rep.dist["ops"] += len(ops)
         rep.dist["steps-with-datagrams"] += nsent
+    inflight_rounds(ctx, rep)
     rep.sample({"interval": scenarios[0][0], "ops": scenarios[0][1][:30]})
     return rep
+
+
+async def _gai_yield(host, port, *, family=0, type=0, proto=0, flags=0):
+    await asyncio.sleep(0)   # the resolution yields once, as a getaddrinfo running in an executor thread does
+    return await _gai(host, port, family=family, type=type, proto=proto, flags=flags)
+
+
+def inflight_rounds(ctx, rep):
+    """Judged by the statement alone (no model: the model resolves addresses at once): a membership change that lands while
+    a round is in flight - k loop callbacks after `notify_once`, with an address resolution that yields - must not cost any
+    endpoint that stays subscribed its notification of that round: each of them gets exactly one datagram carrying the
+    round's event (found thin by the seeded change m88: a round iterating the live subscriber set across awaits)."""
+    for k in range(0, 14):
+        for change in ("sub 4", "unsub 3", "sub 4 unsub 2"):
+            rep.evaluations += 1
+            w = World(0)
+            w.loop.getaddrinfo = _gai_yield
+            try:
+                w.eg.values[1] = b"\x01\x02"
+                w.eg.values[2] = b"\x03"
+                for n in (1, 2, 3):
+                    w.loop.call(w.eg.subscribe, ep_opt(n))
+                w.settle()
+                n0 = len(w.sent)
+                w.loop.call(w.eg.notify_once, [1])
+                for _ in range(k):
+                    if not w.loop.run_one():
+                        break
+                toks = change.split()
+                for j in range(0, len(toks), 2):
+                    f = w.eg.subscribe if toks[j] == "sub" else w.eg.unsubscribe
+                    w.loop.call(f, ep_opt(int(toks[j + 1])))
+                w.settle()
+                stay = {1, 2, 3} - {int(toks[j + 1]) for j in range(0, len(toks), 2) if toks[j] == "unsub"}
+                got = {}
+                for _t, dest, b in w.sent[n0:]:
+                    evs = [m.method_id & 0x7FFF for m in decode_dgram(b)]
+                    if evs == [1]:
+                        got[dest] = got.get(dest, 0) + 1
+                case = {"inflight": {"callbacks_before_change": k, "change": change}}
+                bad = {d: got.get(d, 0) for d in sorted(stay) if got.get(d, 0) != 1}
+                if bad:
+                    rep.violation("C17:inflight-round", f"a round started before `{change}` (after {k} loop callbacks): endpoints that stayed "
+                                  f"subscribed received {bad} datagrams of that round instead of exactly one each", case)
+                rep.nontrivial.add(("inflight", k, change))
+            finally:
+                w.close()
 
